@@ -144,14 +144,17 @@ func UniqueTypes(types []px.Type) []px.Type {
 		return types
 	}
 
+	// Compared with Equals, not by hash key: the key of a type is derived from its printed parameters, which do not
+	// tell String['a'] from String, so the wider String was dropped when it came second
 	result := make([]px.Type, 0, top)
-	exists := make(map[px.HashKey]bool, top)
+next:
 	for _, t := range types {
-		key := px.ToKey(t)
-		if !exists[key] {
-			exists[key] = true
-			result = append(result, t)
+		for _, r := range result {
+			if r.Equals(t, nil) {
+				continue next
+			}
 		}
+		result = append(result, t)
 	}
 	return result
 }
